@@ -72,7 +72,7 @@ func Mv(r *Root, src, dst string) error {
 		return err
 	}
 
-	if srcDir.name == dstDir.name && srcFname == dstFname {
+	if srcDir.Path() == dstDir.Path() && srcFname == dstFname {
 		return nil
 	}
 
